@@ -39,6 +39,6 @@ PLAN = dict(
     assumptions=["operands below 2^61 so add/sub stay inside int64 (documented 2^62 operand range)"],
     quick=_jobs("quick"), thorough=_jobs("thorough"),
     required_classes=dict(all=["op:" + o for o in OPS] + _ORD3 + ["order:r<a", "order:r>a", "order:r=a", "res_size=0", "a_size=0", "b_size=0",
-                                                                  "stride>N", "stride:huge", "module:NTT120", "cfg:generic", "extra_limbs", "alias:1", "alias:2", "alias:3"]
+                                                                  "stride>N", "stride:huge", "module:NTT120", "cfg:generic", "extra_limbs", "alias:1", "alias:2", "alias:3", "alias:4"]
                           + ["k:%d" % k for k in range(1, 17)]),
 )
